@@ -192,6 +192,15 @@ func runC01(c *Ctx) {
 		if r.P(20) {
 			fopts = append(fopts, parquet.SkipBloomFilters(true))
 		}
+		if r.P(25) {
+			fopts = append(fopts, parquet.OptimisticRead(true))
+			fdesc += "optimistic "
+			if r.Bool() {
+				fopts = append(fopts, parquet.PrefetchBloomFilters(true))
+				fdesc += "prefetchbloom "
+			}
+			c.Obs("open_optimistic", 1)
+		}
 		f2, err := openBytes(data, fopts...)
 		if err != nil {
 			c.Fail("c01.open_error", keys, "OpenFile(%s): %v", fdesc, err)
